@@ -386,7 +386,20 @@ func calcPacketLength(p *Packet) (length int) {
 	if p.Header.HasAdaptationField && p.AdaptationField != nil {
 		length++
 		if !p.AdaptationField.IsOneByteStuffing {
-			length += int(calcPacketAdaptationFieldLength(p.AdaptationField))
+			// calcPacketAdaptationFieldLength works on 8 bits: count in int here, otherwise an oversize
+			// adaptation field wraps around and passes the check
+			af := p.AdaptationField
+			length += int(calcPacketAdaptationFieldLength(&PacketAdaptationField{
+				AdaptationExtensionField:    af.AdaptationExtensionField,
+				HasAdaptationExtensionField: af.HasAdaptationExtensionField,
+				HasOPCR:                     af.HasOPCR,
+				HasPCR:                      af.HasPCR,
+				HasSplicingCountdown:        af.HasSplicingCountdown,
+			}))
+			if af.HasTransportPrivateData {
+				length += 1 + len(af.TransportPrivateData)
+			}
+			length += af.StuffingLength
 		}
 	}
 	return
